@@ -9,7 +9,7 @@ from ..util import (Tok, split_hooks, harness_targets, build_or_fail, all_shapes
 SAN = "ASan+UBSan+_GLIBCXX_ASSERTIONS build of the harness from the working tree"
 CLAIM = dict(
     technique="runtime monitoring: sanitizer-instrumented execution + big-int reference oracle over recorded index computations; bounds hooks in ndarray access",
-    text="Executes compute_strides/compute_offset/compute_indices/ndindex and ndarray element access for every shape of dim 1..4 (thorough: ..5) with small extents, every flat offset, 4 run-time container kinds x 4 index element types, plus sampled shapes with 2^24..2^40 elements; each recorded result is decided by an independent Python big-int model (round trip, in-range, suffix-product strides, C-order enumeration, injective buffer addressing in both layouts). Held-on-observed, not a proof.",
+    text="Executes compute_strides/compute_offset/compute_indices/ndindex and ndarray element access for every shape of dim 1..4 (thorough: ..5) with small extents, every flat offset, 4 run-time container kinds x 4 index element types, plus sampled shapes with 2^24..2^40 elements, plus compute_offset over int / uint32 index and stride containers whose values fit while the flat offset (nm_size_t) exceeds the element type; each recorded result is decided by an independent Python big-int model (round trip, in-range, suffix-product strides, C-order enumeration, injective buffer addressing in both layouts). Held-on-observed, not a proof.",
     note="Trusted: Python ints / numpy as the model; " + SAN + "; compile-time-constant index containers are covered by C09, not here.",
     ref="DESIGN.md 4/C01")
 TARGETS_QUICK = [("c01_index", "asan")]
@@ -113,6 +113,30 @@ def run(ctx):
                 idxs = [[rng.randrange(e) for e in shape] for _ in range(3)] + [[e - 1 for e in shape]]
                 line = "roundtrip %d %d %s %s %d %s" % (kind, et, fmt_vec(shape), fmt_vec(offs), len(idxs), " ".join(fmt_vec(i) for i in idxs))
                 add(line, dict(op="roundtrip", kind=kind, et=et, shape=shape, offs=offs, idxs=idxs))
+    # --- flat offsets beyond the (narrow) element type of the index / stride containers: every extent, stride and index fits
+    #     int / uint32 but the offset (returned as nm_size_t) does not: each term stride*index must be formed in the wide type
+    nwide = 40 if quick else 1500
+    for et in (0, 3):
+        mx = ETYPES[et][1]
+        done = 0
+        guard = 0
+        while done < nwide and guard < nwide * 50:
+            guard += 1
+            dim = rng.randint(2, 4)
+            # a leading stride close to sqrt(max) .. max/2 and a leading extent that pushes the count beyond max
+            shape = [rng.randint(2, 9) for _ in range(dim)]
+            shape[-1] = rng.randint(30000, 70000)
+            shape[-2] = rng.randint(30000, 70000) if dim == 2 else rng.randint(1000, 30000)
+            st = strides_of(shape)
+            p = st[0] * shape[0]
+            if max(st) > mx or max(shape) > mx or p <= mx:
+                continue
+            kind = rng.choice([0, 1, 3])
+            idxs = [[e - 1 for e in shape]] + [[rng.randrange(e) for e in shape] for _ in range(3)]
+            idxs.append([e - 1 if k < 2 else 0 for k, e in enumerate(shape)])
+            add("offset_wide %d %d %s %d %s" % (kind, et, fmt_vec(st), len(idxs), " ".join(fmt_vec(i) for i in idxs)),
+                dict(op="offset_wide", kind=kind, et=et, shape=shape, strides=st, idxs=idxs))
+            done += 1
     # --- ndindex enumeration
     for shape in small:
         for kind in (0, 1, 3):
@@ -211,6 +235,17 @@ def check_case(ctx, m, t, line):
             ctx.seen(("roundtrip", kname, ename, tuple(shape)))
         if len(ctx.samples) < 2:
             ctx.sample(dict(op="roundtrip", kind=kname, etype=ename, shape=shape, offsets=len(m["offs"])))
+    elif m["op"] == "offset_wide":
+        kname = KINDS[m["kind"]]
+        ename = ETYPES[m["et"]][0]
+        for idx in m["idxs"]:
+            t.expect("W")
+            o = t.i()
+            eo = sum(a * b for a, b in zip(idx, m["strides"]))
+            if o != eo:
+                ctx.violation("offset_wide:%s:%s:offset" % (kname, ename), "compute_offset(%s, strides %s) in %s<%s> containers = %d expected %d (every stride and index fits %s, the offset needs the returned nm_size_t)" % (
+                    idx, m["strides"], kname, ename, o, eo, ename), det)
+        ctx.seen(("offset_wide", kname, ename, tuple(shape)))
     elif m["op"] == "ndindex":
         kname = KINDS[m["kind"]]
         t.expect("ND")
